@@ -149,7 +149,7 @@ fn judge_real<S: State>(state: S, cfg: &OptCfg, rec: &Rec) -> Result<Option<(usi
     let model = probe.model.clone();
     {
         let mut m = model.lock().unwrap();
-        m.use_expectations = false;
+        m.mode = crate::probe::Mode::Agnostic;
         m.keep_steps = true;
     }
     let cfg2 = cfg.clone();
